@@ -168,10 +168,30 @@ class HostBase:
             r = IntV(Lin.var(self.len_var(("op", v.id), getattr(v, "label", v.__class__.__name__), origin=v)))
             if self._nonempty_match_text(v):
                 self.ctx.assume_le0(Lin.k(1) - r.lin)
+            self._match_within_subject(v, r)
             return r
         if isinstance(v, (IntV, EnumV, FuncV, BoundMethod, ClassV)):
             raise self.raise_("TypeError", "object has no len()", node)
         raise self.unsupported(node, f"len of {v!r}")
+
+    def _match_within_subject(self, v: AV, r: IntV) -> None:
+        """A1: the text matched by `pattern.match(subject, pos)` lies within the subject: pos + len(m.group()) <= len(subject)."""
+        if not (isinstance(v, Term) and v.op == "call" and len(v.args) >= 3 and v.args[1] == "group"):
+            return
+        recv = v.args[0]
+        if not (isinstance(recv, Term) and recv.op in ("re.match", "re.fullmatch", "re.search") and len(recv.args) >= 2):
+            return
+        subj = recv.args[1]
+        if not isinstance(subj, SymStr):
+            return
+        n = Lin.var(subj.len_var)
+        pos = recv.args[2] if len(recv.args) > 2 else None
+        if recv.op != "re.search" and isinstance(pos, IntV):
+            self.ctx.assume_le0(pos.lin + r.lin - n)
+        elif recv.op != "re.search" and isinstance(pos, Const) and isinstance(pos.value, int) and pos.value >= 0:
+            self.ctx.assume_le0(Lin.k(pos.value) + r.lin - n)
+        else:
+            self.ctx.assume_le0(r.lin - n)
 
     def _nonempty_match_text(self, v: AV) -> bool:
         """`m.group()` / `m.group(0)` / `m[0]` of a match of a constant pattern that cannot match the empty string."""
